@@ -825,7 +825,7 @@ def verify_prerequisites(prog, rep, eng):
         # condition together with `operator is Jump` contradicts itself (an earlier Jump arm, a test, a dispatch in a helper ..)
         # the wrappers: the private functions of the evaluation layer that take the hybrid operator kind and dispatch on it (found by
         # their signature, not by name)
-        wrappers = [f for f in prog.lib_fns() if f.path.startswith("evaluation::") and f.vis != "Public" and f is not en.fn
+        wrappers = [f for f in prog.lib_fns() if f.path.startswith("evaluation::") and f is not en.fn
                     and any("operator_enums::HybridOp" in str(t) for t in f.param_tys)]
         jump = ("var", "preprocessing::operator_enums::HybridOp::Jump", (), None)
         ok = bool(wrappers)
